@@ -331,7 +331,7 @@ func runClient(t *testing.T, sc *cScript) (obs *cObs) {
 		}
 		conn := cl.NewConnection(req)
 		conn.SubscribeToAll(func(e sse.Event) {
-			obs.Events = append(obs.Events, cEventObs{Attempt: attempt, Ev: obsEvent{e.LastEventID, e.Type, e.Data}})
+			obs.Events = append(obs.Events, cEventObs{Attempt: attempt, Ev: obsEvent{strings.Clone(e.LastEventID), strings.Clone(e.Type), strings.Clone(e.Data)}})
 		})
 		if sc.CancelBefore {
 			cancel()
